@@ -15,7 +15,35 @@ def build_harness():
     if r.returncode:
         log(r.stdout)
         raise SystemExit('C16 harness does not compile against the tree')
+    outw = os.path.join(BUILD, 'bin/bitmapw')
+    cmd = ['gcc', '-O1', '-g', '-fsanitize=address', '-fno-omit-frame-pointer', '-w', '-I%s/lib' % S, '-I%s/lib/ext2fs' % S, '-o', outw,
+           os.path.join(VERIF, 'engines/bitmapw.c'), '%s/lib/ext2fs/libext2fs.a' % S, '%s/lib/et/libcom_err.a' % S, '-lpthread']
+    r = subprocess.run(cmd, stdout=subprocess.PIPE, stderr=subprocess.STDOUT, text=True)
+    if r.returncode:
+        log(r.stdout)
+        raise SystemExit('C16 wide-bitmap harness does not compile against the tree')
     return out
+
+# wide bitmaps (engines/bitmapw.c): (backend, start, elements, cluster_bits, position stride)
+WIDE_QUICK = [(b, s, n, c, 1) for b in ('ba', 'rb', 'b32') for (s, n) in ((3, 200), (0, 131), (61, 140)) for c in (0, 2) if not (b == 'b32' and c)]
+WIDE_THOROUGH = WIDE_QUICK + [(b, s, n, c, 1) for b in ('ba', 'rb', 'b32') for (s, n) in ((0, 330), (7, 257), (64, 192), (1, 64), (0, 65)) for c in (0, 1, 3) if not (b == 'b32' and c)]
+
+def run_wide(args):
+    exe, c, tmo = args
+    argv = [exe.replace('bitmapx', 'bitmapw'), c[0], str(c[1]), str(c[2]), str(c[3]), str(c[4])]
+    t = time.time()
+    try:
+        r = subprocess.run(argv, stdout=subprocess.PIPE, stderr=subprocess.PIPE, timeout=tmo, env={'ASAN_OPTIONS': 'detect_leaks=0:exitcode=99'})
+        rc, out, err = r.returncode, r.stdout.decode(), r.stderr.decode()
+    except subprocess.TimeoutExpired as e:
+        rc, out, err = 'TIMEOUT', (e.stdout or b'').decode(), ''
+    viol, summ = [], None
+    for l in out.splitlines():
+        try: d = json.loads(l)
+        except Exception: continue
+        if d.get('type') == 'violation': viol.append(d)
+        elif d.get('type') == 'summary': summ = d
+    return c, rc, viol, summ, err[-3000:], time.time() - t
 
 # (backend, start, end, real_end, cluster_bits, geometry_ops)
 QUICK = [('rb', 0, 7, 7, 0, 0), ('rb', 1, 7, 8, 1, 0), ('rb', 0, 6, 7, 2, 0), ('rb', 1, 3, 3, 0, 1), ('rb', 0, 2, 3, 0, 1),
@@ -90,12 +118,33 @@ def main(tier, only=None):
                     'closed': summ['closed'], 'violating_transitions': summ['violations'], 'wall_s': round(dt, 1)}
         if 'deepest_history' in summ and len(ck.cov['samples']) < 8:
             ck.add(samples=[{'config': cid, 'history_to_a_deepest_state': summ['deepest_history']}])
+    # ---- wide bitmaps: every query range on a family of contents (word-scanning loops, long extent walks)
+    wres = pmap(run_wide, [(exe, c, tmo) for c in (WIDE_QUICK if tier == 'quick' else WIDE_THOROUGH)], chunksize=1)
+    wide = {}
+    for c, rc, viol, summ, err, dt in wres:
+        cid = 'wide/%s/start%d/n%d/c%d' % c[:4]
+        if rc == 'TIMEOUT':
+            ck.add(exhaustive=False); wide[cid] = {'result': 'not finished'}; continue
+        if summ is None or rc not in (0, 1):
+            ck.violation(cid + ':crash', {'wide': list(c), 'exit': rc, 'stderr': err, 'what': 'wide-bitmap harness crashed (sanitizer report or fatal signal inside the bitmap code)'})
+            continue
+        seen = set()
+        for v in viol:
+            sig = (v['query'].split('(')[0], v['content'].split('-')[0])
+            if sig in seen: continue
+            seen.add(sig)
+            ck.violation('%s:%s:%s' % (cid, v['content'], v['query']), {'wide': list(c), 'content': v['content'], 'query': v['query'], 'msg': v['msg']})
+        ck.add(evaluations=summ['queries'], transitions=summ['queries'], traces_validated_against_impl=summ['queries'], states=summ['contents'], distinct_nontrivial=summ['contents'])
+        wide[cid] = {'contents': summ['contents'], 'queries': summ['queries'], 'violations': summ['violations'], 'wall_s': round(dt, 1)}
+    ck.cov['wide_configurations'] = wide
     ck.cov['configurations'] = per
     ck.cov['configurations_closed'] = closed
     ck.add(rule='state = complete private state of the real bitmap object (rbtree shape+colours+cursors+extents / array bytes, end, real_end) plus the '
                 'known-mask of the reference; BFS applies every op of the alphabet (every argument in range) to every state until no new state appears '
                 '(closure); distinct = distinct canonical states; every transition compares all return values/out-parameters with a uint64 reference set, '
-                'decodes the private state against the reference and checks red-black/extent invariants')
+                'decodes the private state against the reference and checks red-black/extent invariants.  Second engine (wide bitmaps of 64..330 elements, unaligned starts, cluster ratios): '
+                'contents = full/empty with one exception at every position, with an exception run of 2/63/64/65 at every third position, alternating blocks; each content built by two routes; '
+                'every range lo<=hi is queried with find_first_zero, find_first_set, test_clear_range (get_range on a sub-family) and every range is marked/unmarked with a complete read-back')
     ck.assumptions += ['bitmaps of at most 17 elements (small-scope); set_range/get_range start offsets byte-aligned relative to the bitmap start and '
                        'set_range lengths multiples of 8, as every caller in the tree does; padding elements beyond "end" are unconstrained after a resize '
                        '(backends legitimately differ) until set_padding/set_range/clear defines them',
@@ -105,6 +154,12 @@ def main(tier, only=None):
 def replay(path):
     d = json.load(open(path))['detail']
     exe = build_harness()
+    if 'wide' in d:
+        c = d['wide']
+        r = subprocess.run([exe.replace('bitmapx', 'bitmapw')] + [str(x) for x in c], env={'ASAN_OPTIONS': 'detect_leaks=0:exitcode=99'}, stdout=subprocess.PIPE, text=True)
+        print('\n'.join(r.stdout.splitlines()[:5] + r.stdout.splitlines()[-1:]))
+        print('replay verdict:', 'VIOLATION reproduced' if r.returncode else 'no violation')
+        return 1 if r.returncode else 0
     c = d['config']
     argv = [exe, c[0], str(c[1]), str(c[2]), str(c[3]), str(c[4] + 4 * c[5]), '0', '--replay', ','.join(map(str, d['ops']))]
     r = subprocess.run(argv, env={'ASAN_OPTIONS': 'detect_leaks=0:exitcode=99'})
